@@ -38,7 +38,7 @@ MODE = os.environ.get("SEED_MODE", "repo")
 target = "/repo" if MODE == "repo" else wt
 assert sh(f"git -C {target} status --porcelain")[1].strip() == "", f"{target} not clean"
 res = {}
-for tier in ("quick", "thorough"):
+for tier in tuple(os.environ.get("SEED_TIERS", "quick,thorough").split(",")):
     assert sh(f"git -C {target} apply {diff}")[0] == 0
     try:
         t0 = time.time()
